@@ -129,10 +129,12 @@ pub fn exec(a: &Args) -> i32 {
         o.versioned_history_retention_ns = 0;
         o.enable_versioned_index = index;
         o.level_count = 2;
-        // without the compaction flag no automatic compaction may start (its versioning losses are a known finding
-        // covered by the per-key stream); with it, every answer after the first flush / reopen is counted, not judged
-        o.level0_max_files = if auto_compact { 1 } else { 1000 };
-        o.max_bytes_for_level = if auto_compact { 1 } else { 1 << 40 };
+        // the background task never compacts (a compaction that runs while a reader is open drops versions: known
+        // finding (c) of the per-key stream, and when it runs is a matter of timing); cases with the compaction flag
+        // compact at chosen points through the eager round of the hooks
+        let _ = auto_compact;
+        o.level0_max_files = 1000;
+        o.max_bytes_for_level = 1 << 40;
         o.l0_stall_threshold = 1000;
         o.memtable_stall_threshold = 1000;
         match clk {
@@ -251,7 +253,7 @@ pub fn exec(a: &Args) -> i32 {
                 }
                 Some("compact") => {
                     let Some(t) = tree.as_ref() else { return "bad-op".into() };
-                    match vs::compact_round(t) {
+                    match vs::compact_round_eager(t) {
                         Ok(()) => "ok".into(),
                         Err(e) => format!("err:{}", e.replace(' ', "_")),
                     }
